@@ -1169,7 +1169,7 @@ func TestC16(t *testing.T) {
 		rec.Extra("shape_documents", len(docs))
 	}
 
-	rec.Rapid(t, "slurp", rec.Scale(1500, 30000), func(t *rapid.T) {
+	rec.Rapid(t, "slurp", rec.Scale(1200, 20000), func(t *rapid.T) {
 		in, models := genJSONInputs(t, 3)
 		selfCheck(t, in, models)
 		c := slurpCase{In: in, Mode: pick(t, "mode", []string{"json", "json", "stream"})}
@@ -1190,7 +1190,7 @@ func TestC16(t *testing.T) {
 		}
 	})
 
-	rec.Rapid(t, "order", rec.Scale(3000, 60000), func(t *rapid.T) {
+	rec.Rapid(t, "order", rec.Scale(2400, 40000), func(t *rapid.T) {
 		c := orderCase{Mode: pick(t, "mode", []string{"json", "json", "json", "stream", "raw"}), NFirst: !chance(t, "nlast", 4)}
 		nvals := 0
 		if c.Mode == "raw" {
@@ -1232,7 +1232,7 @@ func TestC16(t *testing.T) {
 		}
 	})
 
-	rec.Rapid(t, "stream", rec.Scale(1500, 30000), func(t *rapid.T) {
+	rec.Rapid(t, "stream", rec.Scale(1200, 20000), func(t *rapid.T) {
 		in, models := genJSONInputs(t, 3)
 		selfCheck(t, in, models)
 		c := streamCase{In: in, Rebuild: rapid.IntRange(0, len(rebuilds)-1).Draw(t, "rebuild")}
@@ -1248,7 +1248,7 @@ func TestC16(t *testing.T) {
 	})
 
 	// one rapid case = one document, cut after every byte
-	rec.Rapid(t, "trunc", rec.Scale(500, 10000), func(t *rapid.T) {
+	rec.Rapid(t, "trunc", rec.Scale(400, 6000), func(t *rapid.T) {
 		var pre []string
 		for i, n := 0, rapid.IntRange(0, 2).Draw(t, "npre")*rapid.IntRange(0, 1).Draw(t, "pre?"); i < n; i++ {
 			pre = append(pre, renderDoc(t, genNode(t, 2, false)))
@@ -1294,7 +1294,7 @@ func TestC16(t *testing.T) {
 		}
 	})
 
-	rec.Rapid(t, "raw", rec.Scale(1500, 30000), func(t *rapid.T) {
+	rec.Rapid(t, "raw", rec.Scale(1200, 20000), func(t *rapid.T) {
 		c := rawCase{Variant: pick(t, "variant", rawVariantNames)}
 		c.In = genRawInputs(t, strings.HasPrefix(c.Variant, "lines"))
 		rec.Eval()
@@ -1315,7 +1315,7 @@ func TestC16(t *testing.T) {
 		}
 	})
 
-	rec.Rapid(t, "args", rec.Scale(3000, 60000), func(t *rapid.T) {
+	rec.Rapid(t, "args", rec.Scale(2400, 40000), func(t *rapid.T) {
 		c := genArgsCase(t)
 		rec.Eval()
 		seen := map[string]bool{}
@@ -1350,7 +1350,7 @@ func TestC16(t *testing.T) {
 		}
 	})
 
-	rec.Rapid(t, "fromfile", rec.Scale(1500, 30000), func(t *rapid.T) {
+	rec.Rapid(t, "fromfile", rec.Scale(1200, 20000), func(t *rapid.T) {
 		c := genFileCase(t)
 		rec.Eval()
 		rec.Class("fromfile/" + c.FFlag)
@@ -1363,7 +1363,7 @@ func TestC16(t *testing.T) {
 		}
 	})
 
-	rec.Rapid(t, "malformed", rec.Scale(2500, 50000), func(t *rapid.T) {
+	rec.Rapid(t, "malformed", rec.Scale(2000, 30000), func(t *rapid.T) {
 		in, models := genJSONInputs(t, 3)
 		selfCheck(t, in, models)
 		c := malCase{In: in, Variant: pick(t, "variant", malVariants)}
